@@ -1189,6 +1189,7 @@ LIBATTR[('ndarray', 'T')] = lambda interp, a: A.transpose(a)
 LIBATTR[('ndarray', 'real')] = lambda interp, a: np_real(interp, a)
 LIBATTR[('ndarray', 'imag')] = lambda interp, a: np_imag(interp, a)
 LIBATTR[('ndarray', 'copy')] = lambda interp, a: (lambda i2: a.copy())
+LIBATTR[('ndarray', 'fill')] = lambda interp, a: (lambda i2, v: A.setitem(a, tuple(slice(None) for _ in a.shape), v))
 LIBATTR[('ndarray', 'reshape')] = lambda interp, a: (lambda i2, *sh: A.reshape(a, sh[0] if len(sh) == 1 and isinstance(sh[0], (tuple, list)) else sh))
 LIBATTR[('ndarray', 'flatten')] = lambda interp, a: (lambda i2: A.reshape(a, (a.size(),)).copy())
 LIBATTR[('ndarray', 'sum')] = lambda interp, a: (lambda i2, axis=None, **k: np_sum(i2, a, axis=axis, **k))
